@@ -472,6 +472,27 @@ def replay(path):
             return 1
         log("replay: accepted (violation not reproduced)")
         return 0
+    pr = d["replay"].get("parser_run")
+    if pr:
+        # the in-circuit parser half: the same word (and tamper) again, judged by RegexWords
+        sc = {"id": s["id"], "lib": s["lib"], "k": 10, "words": [pr["word"]]}
+        if pr.get("tamper"):
+            sc.update({"faults": [pr["tamper"]["fault"]], "max_index": 100000})
+        sp = os.path.join(wd, "replay_pscen.ndjson")
+        vlib.write_ndjson(sp, [sc])
+        tp = os.path.join(wd, "replay_parse.ndjson")
+        vlib.run_vh(["c19", "parse", sp, tp])
+        rs = [r for r in vlib.read_ndjson(tp) if r["ev"] == "Parse" and (not pr.get("tamper") or not r["tampered"] or r["tamper"]["i"] == pr["tamper"]["i"])]
+        cpath = os.path.join(wd, "replay_wcase.json")
+        json.dump({"expr": s["core"], "letters": s["letters"], "markers": s["markers"],
+                   "automaton": {"nb_states": 1, "initial": 0, "finals": [], "trans": []},
+                   "runs": [{"word": r["word"], "status": r["status"], "exposed": r["exposed"], "tampered": r["tampered"]} for r in rs]}, open(cpath, "w"))
+        r = vlib.run_tlc("RegexWords.tla", "RegexWords.cfg", "C19", env={"CASE": cpath}, workers=1, timeout=600)
+        if r["violated"] == "WordsOK":
+            log(f"VIOLATION property=C19 replay={path}")
+            return 1
+        log("replay: accepted (violation not reproduced)")
+        return 0
     sp = os.path.join(wd, "replay_scen.ndjson")
     vlib.write_ndjson(sp, [s])
     ap = os.path.join(wd, "replay_aut.ndjson")
